@@ -42,7 +42,7 @@ def plan(prop, tier):
             ["drop:Single:in-flight", "drop:Multi:in-flight", ["drop:TwoStep:in-flight", "drop:TwoStep:between-two-completions"], "cqe:for-dropped-op", "simk_kernel_mem_writes", "simk_kernel_mem_reads", "mt-drop:workers=2"],
             extra_quick=[gen_job("c06mt", "native-debug", 500, 8, timeout=400)],
             extra_thorough=[gen_job("c01", "asan", 3000, 16, timeout=1200), gen_job("c01", "miri", 12, 16, timeout=1500),
-                            gen_job("c06mt", "native-debug", 8000, 16, timeout=1800), gen_job("c06mt", "asan", 500, 16, timeout=1800), gen_job("c06free", "tsan", 60, 8, timeout=3000)],
+                            gen_job("c06mt", "native-debug", 8000, 16, timeout=1800), gen_job("c06mt", "asan", 500, 16, timeout=1800), gen_job("c06free", "tsan", 60, 8, timeout=3000), gen_job("c06free", "miri", 6, 16, timeout=3000)],
         )
     if prop == "C02":
         return explorer_plan(
@@ -66,9 +66,9 @@ def plan(prop, tier):
         return explorer_plan(
             "c06", tier, 2500, 40000, GEN_RULE + "; C06 oracle: cancel requests vs drops (target, count, room), allocator exactly-once and leak ledger after teardown; plus c06mt: baton-scheduled worker threads dropping in-flight futures while the ring thread consumes their completions (leak/double-free ledger over the whole schedule)",
             ["drop:Single:in-flight", "drop:Single:never-polled", "drop:Single:finished", "drop:Multi:multishot-mid-stream", ["drop:TwoStep:between-two-completions", "drop:TwoStep:in-flight"], "drop:Single:queued-not-consumed", "simk_cancels", "mt-drop:workers=2", "mt-drop:workers=3"],
-            extra_quick=[gen_job("c06mt", "native-debug", 500, 8, timeout=400)],
+            extra_quick=[gen_job("c06mt", "native-debug", 500, 8, timeout=400), gen_job("c06free", "miri", 2, 4, timeout=900)],
             extra_thorough=[gen_job("c06", "asan", 3000, 16, timeout=1200, lsan=True),
-                            gen_job("c06mt", "native-debug", 8000, 16, timeout=1800), gen_job("c06mt", "asan", 500, 16, timeout=1800), gen_job("c06free", "tsan", 60, 8, timeout=3000)],
+                            gen_job("c06mt", "native-debug", 8000, 16, timeout=1800), gen_job("c06mt", "asan", 500, 16, timeout=1800), gen_job("c06free", "tsan", 60, 8, timeout=3000), gen_job("c06free", "miri", 6, 16, timeout=3000)],
         )
     if prop == "C09":
         return explorer_plan(
@@ -84,9 +84,9 @@ def plan(prop, tier):
             jobs = [gen_job("c04", "native-debug", 100, 16, timeout=400), gen_job("c04free", "tsan", 8, 4, timeout=600)]
         else:
             jobs = [gen_job("c04", "native-debug", 2500, 16, timeout=3000), gen_job("c04", "native-release", 2500, 16, timeout=3000),
-                    gen_job("c04", "asan", 300, 16, timeout=3000), gen_job("c04free", "tsan", 40, 8, timeout=3000)]
+                    gen_job("c04", "asan", 300, 16, timeout=3000), gen_job("c04free", "tsan", 40, 8, timeout=3000), gen_job("c04free", "miri", 5, 16, timeout=3000)]
         return dict(jobs=jobs, level="exploration", rule=rule, floor_cells=["wrap-sweep:size=1", "wrap-sweep:size=8", "wrap-sweep:size=4096", "sq=1", "sq=2", "start=near-2^32", "submitters=2", "sqpoll=true", "sched_switches"],
-                    floor_evaluations=500, assumptions=SIMK_ASSUMPTIONS + ["the scheduler only switches threads at the hook points: interleavings inside other instruction sequences and weak-memory effects are left to the TSan/free-running jobs of the thorough tier"], also=[])
+                    floor_evaluations=500, assumptions=SIMK_ASSUMPTIONS + ["the scheduler only switches threads at the hook points: interleavings inside other instruction sequences and weak-memory effects are left to the free-running jobs under ThreadSanitizer and under Miri (its own scheduler, data-race detector and weak-memory emulation, a different -Zmiri-seed per shard)"], also=[])
     if prop == "C14":
         rule = ("pure calls on every provided Buf/BufMut/BufSlice/BufMutSlice implementation and wrapper: Vec capacities 0..12 x fill levels x n exhaustively, random larger ones, "
                 "arrays and tuples of arity 1..8, limits {0,1,cap-1,cap,cap+1,2^32-1,2^32,2^32+5,2^40,usize::MAX}, nested limits; oracle = pointer bounds of the vector + Vec<u8> model; distinct = distinct (type, geometry, n, limit) tuples")
@@ -148,16 +148,16 @@ def plan(prop, tier):
             jobs = [gen_job("c08", "native-debug", 2500, 8), gen_job("c08wrap", "native-debug", 1, 2, timeout=600), gen_job("c08mt", "native-debug", 400, 8, timeout=600)]
         else:
             jobs = [gen_job("c08", "native-debug", 40000, 16, timeout=1800), gen_job("c08", "native-release", 40000, 16, timeout=1800), gen_job("c08wrap", "native-release", 2, 8, timeout=1800, params={"cycles": "200000"}),
-                    gen_job("c08mt", "native-debug", 6000, 16, timeout=3000), gen_job("c08", "asan", 3000, 16, timeout=1800), gen_job("c08", "miri", 10, 16, timeout=2400), gen_job("c08free", "tsan", 30, 8, timeout=3000)]
+                    gen_job("c08mt", "native-debug", 6000, 16, timeout=3000), gen_job("c08", "asan", 3000, 16, timeout=1800), gen_job("c08", "miri", 10, 16, timeout=2400), gen_job("c08free", "tsan", 30, 8, timeout=3000), gen_job("c08free", "miri", 3, 16, timeout=3000)]
         return dict(jobs=jobs, level="exploration", rule=rule, floor_cells=["kind:ReadPool", "kind:MultishotRead", "kind:MultishotRecv", "simk_pbuf_selects", "simk_pbuf_returns", "marathon_tail_wraps", "release:pool=1", "release:pool=8", "drop:Multi:multishot-mid-stream"],
                     floor_evaluations=5000, assumptions=SIMK_ASSUMPTIONS, also=[])
     if prop == "C11":
         rule = ("baton-scheduler schedules of one ring thread calling Ring::poll(None) against 1-3 threads calling SubmissionQueue::wake, families: S1 concurrent wakes, S2 wakes completed before the poll starts, S3 loop where wake i+1 is issued only after poll i returned; "
                 "default, kernel-thread (simulated SQPOLL thread) and single-issuer rings (IORING_REGISTER_SEND_MSG_RING path), optionally with a full submission queue when the wake message must be queued; oracle: a poll blocked in the simulated kernel with nothing to deliver once every wake() returned (no runnable thread left) is a lost wake-up; wake() after the Ring was dropped must be harmless; distinct = switch-sequence hash + configuration")
         if tier == "quick":
-            jobs = [gen_job("c11", "native-debug", 1500, 8, timeout=600)]
+            jobs = [gen_job("c11", "native-debug", 1500, 8, timeout=600), gen_job("c11free", "miri", 2, 4, timeout=900)]
         else:
-            jobs = [gen_job("c11", "native-debug", 40000, 16, timeout=3000), gen_job("c11", "native-release", 40000, 16, timeout=3000), gen_job("c11", "asan", 2000, 16, timeout=3000), gen_job("c11free", "tsan", 200, 8, timeout=3000)]
+            jobs = [gen_job("c11", "native-debug", 40000, 16, timeout=3000), gen_job("c11", "native-release", 40000, 16, timeout=3000), gen_job("c11", "asan", 2000, 16, timeout=3000), gen_job("c11free", "tsan", 200, 8, timeout=3000), gen_job("c11free", "miri", 8, 16, timeout=3000)]
         return dict(jobs=jobs, level="exploration", rule=rule, floor_cells=["family:S1-concurrent", "family:S2-wake-before-poll", "family:S3-poll-loop", "ring:default", "ring:kernel-thread", "ring:single-issuer", "queue-full-at-wake", "wake-after-ring-dropped", "sched_kernel_blocks", "simk_msg_rings"],
                     floor_evaluations=2000, assumptions=SIMK_ASSUMPTIONS + ["liveness is judged in the bounded form 'a state in which no thread can run' under the scheduler, not by wall-clock time"], also=[])
     if prop == "C16":
@@ -215,10 +215,10 @@ CLAIMS = {
                 technique="trap entries in every unpublished/returned completion slot, head monotonicity checks, injected bookkeeping and F_SKIP completions with recognisable results, counters started near 2^31/2^32",
                 text="The simulated kernel keeps every completion slot outside [head, tail) filled with trap entries, scribbles slots the moment a10 gives them back, injects user_data 0-3 and IORING_CQE_F_SKIP completions (also carrying live operations' user_data) and starts the 32-bit counters at 2^32-k, 2^31-k and random values so that runs cross the wrap."),
     "C06": dict(level="exploration", engine="simk-explorer", design_ref="DESIGN.md 4 C06", note=_NOTE,
-                technique="cancel-request log vs drop log at the kernel boundary; allocator monitor (quarantine, exactly-once, leak ledger after teardown)",
-                text="Every ASYNC_CANCEL the simulated kernel receives is matched against the operations the history dropped while running (target, count, room in the queue at the drop); the allocator monitor reports state freed twice, freed while its completion is still unconsumed, or still live after the ring was dropped, over all op kinds x drop points x cancel outcomes the generator reaches (matrix printed in the evidence)."),
+                technique="cancel-request log vs drop log at the kernel boundary; allocator monitor (quarantine, exactly-once, leak ledger after teardown); controlled and free-running (Miri, TSan) thread schedules of drop-vs-completion",
+                text="Every ASYNC_CANCEL the simulated kernel receives is matched against the operations the history dropped while running (target, count, room in the queue at the drop); the allocator monitor reports state freed twice, freed while its completion is still unconsumed, or still live after the ring was dropped, over all op kinds x drop points x cancel outcomes the generator reaches (matrix printed in the evidence). Scenario c06mt/c06free drops in-flight futures on worker threads while the ring thread consumes their completions: under the baton scheduler (switching at a10's lock points) with a leak/double-free ledger over the whole schedule, and free-running under Miri (its scheduler, data-race detector, weak memory) and ThreadSanitizer."),
     "C04": dict(level="exploration", engine="baton-scheduler", design_ref="DESIGN.md 4 C04", note=_NOTE + "; the scheduler explores sequentially consistent interleavings at the hook points only",
-                technique="controlled thread schedules (baton scheduler at a10_verif hook points) over the real submission queue + simulated kernel consuming entries; exhaustive counter wrap sweep",
+                technique="controlled thread schedules (baton scheduler at a10_verif hook points) over the real submission queue + simulated kernel consuming entries; counter wrap sweep; free-running schedules under ThreadSanitizer and Miri (data-race detection of entry writes vs kernel reads)",
                 text="The simulated kernel checks at every consumption that the tail is never more than `entries` ahead of its head, that no consumed entry is empty/reset and that no single-shot user_data is in flight twice; the scenario gives every read a unique offset so that lost, duplicated or modified submissions are identified exactly. Thread interleavings are produced deterministically by a seeded scheduler that switches at the lock, shared-load and tail-store points inside a10; every queue size x counter start value combination near the 2^31/2^32 wrap is swept exhaustively single-threaded."),
     "C14": dict(level="exploration", engine="pure-sweep", design_ref="DESIGN.md 4 C14", note="trusted base: the Vec<u8> reference model in the harness; IoSlice/IoMutSlice == struct iovec",
                 technique="differential sweep against a Vec<u8> model with pointer-bounds checks; the same sweep under Miri",
@@ -239,10 +239,10 @@ CLAIMS = {
                 technique="exhaustive enumeration of configurations x kernel refusal points with descriptor/mapping/allocation ledgers and parameter-block decoding",
                 text="Every configuration combination is built against every scripted kernel answer; a failing build must leave no ring descriptor, no mapping and no allocation behind, a successful one must have passed exactly the configured flags/sizes/cpu/idle/wq_fd to the kernel, must use the granted (not requested) sizes and seeded ring offsets (proved by a read round trip across the index wrap), must refuse submissions while disabled and work after enable(). Exhaustive within the listed space."),
     "C08": dict(level="exploration", engine="simk-explorer + baton-scheduler", design_ref="DESIGN.md 4 C08", note=_NOTE,
-                technique="pool ledger in the simulated kernel (owner of the buffer-ring head) + checksums of held buffers + conservation check; controlled schedules for concurrent releases; wrap marathon",
+                technique="pool ledger in the simulated kernel (owner of the buffer-ring head) + checksums of held buffers + conservation check; controlled schedules for concurrent releases (plus free-running under Miri/TSan); wrap marathon",
                 text="The simulated kernel owns the kernel head of every buffer ring and audits every entry a10 publishes (buffer handed out exactly once, own address and length, never more entries than the pool has), the harness checksums every ReadBuf it holds, and at the end of each history every buffer must be the kernel's again. Concurrent releases run under the seeded scheduler with the kernel looking at the ring between the entry write and the tail store. Known findings: buffers selected for abandoned/uncollected operations are lost (KNOWN_FINDINGS.txt)."),
     "C11": dict(level="exploration", engine="baton-scheduler", design_ref="DESIGN.md 4 C11", note=_NOTE + "; bounded-progress restatement of liveness",
-                technique="controlled thread schedules with deadlock detection: a Ring::poll parked in the simulated kernel while no other thread can run is a lost wake-up",
+                technique="controlled thread schedules with deadlock detection: a Ring::poll parked in the simulated kernel while no other thread can run is a lost wake-up; free-running schedules under Miri and ThreadSanitizer",
                 text="Three scenario families make 'every poll has a dedicated wake' true by construction, so a poll that blocks forever in the simulated kernel after all wake() calls returned is a lost wake-up; spurious early returns are allowed. All three ring configurations that support waking are covered, including the synchronous REGISTER_SEND_MSG_RING path and the retry loop when the queue is full."),
     "C16": dict(level="exploration", engine="real-kernel differential + pure sweep", design_ref="DESIGN.md 4 C16", note="trusted base: the real kernel of the sandbox and std's socket address accessors as reference; the pure model of kernel-reported lengths for addresses that cannot be bound",
                 technique="differential testing against the real kernel (std getsockname as independent oracle) plus a pure storage->bytes->init sweep with garbage beyond the reported length",
